@@ -138,7 +138,7 @@ func grpcstatusR4(t *tr, b *strings.Builder) {
 		{"github.com/yandex/pandora/components/guns/http", "newConnectDialFunc", "dialWrapsConnectDialFunc"},
 	}
 	for _, d := range dialers {
-		p := load(d.pkg)
+		p := grpcstatusLoad(d.pkg)
 		fd := findFunc(p, d.fn)
 		if fd == nil || fd.Body == nil {
 			t.errs = append(t.errs, "function "+d.fn+" not found in "+d.pkg)
@@ -149,7 +149,7 @@ func grpcstatusR4(t *tr, b *strings.Builder) {
 		fmt.Fprintf(b, "/-- `%s` (%s): every call that builds an error from an earlier error, as (builder, callee the wrapped\nerror came from) -/\ndef %s : List (String × String) := [%s]\n\n", d.fn, d.pkg[len("github.com/yandex/pandora/"):], d.lean, strings.Join(rows, ", "))
 	}
 	// decodeAmmo
-	p := load("github.com/yandex/pandora/components/providers/grpc/grpcjson")
+	p := grpcstatusLoad("github.com/yandex/pandora/components/providers/grpc/grpcjson")
 	fd := findFunc(p, "decodeAmmo")
 	if fd == nil || fd.Body == nil {
 		t.errs = append(t.errs, "function decodeAmmo not found in grpcjson")
